@@ -29,9 +29,13 @@ Considered(c) == {e \in Effective(c) : ~(c.exclQuery /\ e.in = "query")}
 
 TextOf(c, e) == LET vs == {v \in Range(c.values) : <<v.in, v.name>> = Key(e)} IN
                 IF vs = {} THEN "absent" ELSE (CHOOSE v \in vs : TRUE).text
-(* kind "int": an integer schema; kind "strx": a string that must start with x; none required *)
+(* kind "int": an integer schema; "strx": a string that must start with x; "reqint": a REQUIRED integer;  *)
+(* "reqintd": a required integer whose schema also has a default -- a default does not make an absent       *)
+(* required parameter present                                                                              *)
+IsRequired(e) == e.kind \in {"reqint", "reqintd"}
 Passes(c, e) == LET t == TextOf(c, e) IN
-                t = "absent" \/ (e.kind = "int" /\ t = "1") \/ (e.kind = "strx" /\ t = "x")
+                IF t = "absent" THEN ~IsRequired(e)
+                ELSE (e.kind \in {"int", "reqint", "reqintd"} /\ t = "1") \/ (e.kind = "strx" /\ t = "x")
 
 BodyFails(c) == c.body = "fail" /\ ~c.exclBody
 
